@@ -30,6 +30,8 @@ from hpstatic.xrnorm import atom_rewrite
 from . import c04, c09
 from .theories import run_config, IFQ
 
+MUTATION_TARGETS = {'holopy/scattering/theory/mie.py': ['raw_cross_sections'], 'holopy/scattering/theory/mie_f/miescatlib.py': ['cross_sections', 'asymmetry_parameter'], 'holopy/scattering/theory/multisphere.py': ['raw_cross_sections', '_calc_cext', '_calc_cscat']}
+
 LEVEL = 'other'
 META = dict(
     claimed=True,
